@@ -359,9 +359,9 @@ for i in range(int(os.environ["VF_N"])):
                 M("ENTER " + s.armed); s.enter(); M("ENTERED")
         elif r < 0.65:
             w = s.inside and s.ctx_w in ("yes", "maybe")
-            M("MUT " + ("allowed" if w else "forbidden")); s.mutate(rng, rng.choice(A.MUTATORS)); M("END")
+            M("MUT " + ("allowed" if w else "forbidden") + " " + s.armed); s.mutate(rng, rng.choice(A.MUTATORS)); M("END")
         else:
-            M("READ"); s.read(rng, rng.choice([x for x in A.READERS if x != "copy"])); M("END")
+            M("READ " + s.armed); s.read(rng, rng.choice([x for x in A.READERS if x != "copy"])); M("END")
     s.close(); os.unlink(path)
 M("DONE")
 '''
@@ -390,23 +390,25 @@ def shard_strace(desc, rec):
         rec.note("strace produced no complete log (ptrace not permitted?): " + p.stderr.decode(errors="replace")[-300:])
         return
     phase = "idle"
+    armed = "no"
     cur = None
     lines = 0
     for ln in open(log, errors="replace"):
         lines += 1
         m = re.search(r'write\(\d+<[^>]*>, "VFMARK ([A-Z]+) ?([^"\\]*)', ln)
         if m:
-            tag, arg = m.group(1), m.group(2)
+            tag, arg = m.group(1), m.group(2).strip()
             if tag == "FILE":
                 cur = arg
             elif tag == "ENTER":
-                phase = "enter:" + arg
+                phase, armed = "enter", arg
             elif tag == "ENTERED":
                 phase = "idle"
             elif tag == "MUT":
-                phase = "mut:" + arg
+                parts = arg.split()
+                phase, armed = "mut:" + parts[0], (parts[1] if len(parts) > 1 else "no")
             elif tag == "READ":
-                phase = "read"
+                phase, armed = "read", arg or "no"
             elif tag == "END":
                 phase = "idle"
             continue
@@ -414,17 +416,19 @@ def shard_strace(desc, rec):
             continue
         is_write = re.search(r"\b(write|pwrite64|writev|ftruncate|truncate)\(", ln) is not None
         is_wopen = re.search(r"\bopen(at)?\(.*O_(WRONLY|RDWR)", ln) is not None
-        if "harness-own" in ln:
-            continue
-        if is_write or is_wopen:
+        if is_write:
             rec.count(f"strace:file-write-syscalls:{phase.split(':')[0]}")
-            ok = phase in ("mut:allowed", "enter:yes", "enter:maybe") or (phase == "read" and is_wopen and False)
-            # make_file itself writes the initial file before the FILE marker, so it is not seen here
-            if not ok and not (phase == "read" and is_wopen):
+            # bytes may reach the file only inside a mutator issued in a write-enabled context
+            if phase != "mut:allowed":
                 rec.violation("C08", "os-level-write-outside-write-context",
+                              f"phase {phase} (allow_write outstanding: {armed}): {ln.strip()[:300]}",
+                              {"driver": "access-strace", "seed": desc["seed"]})
+        elif is_wopen:
+            rec.count(f"strace:write-capable-opens:{phase.split(':')[0]}")
+            # a write-capable open is legitimate only while an allow_write() is outstanding
+            if armed == "no":
+                rec.violation("C08", "os-level-write-capable-open-without-allow_write",
                               f"phase {phase}: {ln.strip()[:300]}", {"driver": "access-strace", "seed": desc["seed"]})
-            elif phase == "read" and is_wopen:
-                rec.count("strace:reader-implicit-r+b-open(armed)")
     rec.count("strace:lines-parsed", lines)
     rec.case({"strace": desc["seed"], "n": desc["n"]}, True)
     os.unlink(log)
@@ -443,13 +447,28 @@ def shard_create_copy(desc, rec):
     for i in range(desc["n"]):
         tstate = ["absent", "tdf", "non-tdf", "empty", "directory"][i % 5]
         which = ["new", "copy"][(i // 5) % 2]
-        target = str(d / f"t_{os.getpid()}_{i}_{rng.getrandbits(20):x}.tdf")
+        sub = d / f"dir_{os.getpid()}_{i}"          # a directory of its own: nothing else in it may change
+        sub.mkdir()
+        suffix = rng.choice([".tdf", ".tdf", "", ".TDF", ".bak", ".tdf.tmp"])
+        stem = f"t_{rng.getrandbits(20):x}"
+        target = str(sub / (stem + suffix))
+        siblings = {}
+        for sname in {stem + ".tdf", stem, stem + ".TDF", stem + suffix + ".tdf", stem + ".bak"} - {stem + suffix}:
+            if rng.random() < 0.6:
+                content = rng.choice([b"", b"sibling", rc.encode_container(2, [])])
+                (sub / sname).write_bytes(content)
+                siblings[sname] = content
         case = {"driver": "create-copy", "target": tstate, "call": which, "seed": desc["seed"], "index": i}
         rec.case({"t": tstate, "w": which, "i": i}, True, sample=case if i % 37 == 0 else None)
         # source: a file reached by a short history
         src = str(d / f"s_{os.getpid()}_{i}.tdf")
-        init = C.describe_init(rng)
-        ops = C.random_history(rng, rng.randint(0, 20), init=init)
+        init = C.describe_init(rng, allow_holes=False)
+        if tstate == "absent" and which == "copy" and rng.random() < desc.get("big_p", 0.0):
+            # a source larger than any plausible copy buffer (4 MiB + a bit, 9 MiB)
+            init = {"how": "foreign", "n": 4, "nlive": 2, "seed": rng.getrandbits(32), "opaque_p": 1.0, "scramble": False,
+                    "sizes": [rng.choice([(4 << 20) + 12345, (9 << 20) + 1, (1 << 22), (8 << 20)]), 1000], "_types": [], "_opaque": []}
+            rec.count("c17:big-source")
+        ops = C.random_history(rng, rng.randint(0, 20), init=init) if "sizes" not in init else []
         h = C.History(rec, [], init, ops, "c17-source")
         h.states, h.trans, h.faults = set(), set(), set()
         h.setup()
@@ -466,8 +485,8 @@ def shard_create_copy(desc, rec):
         os.replace(h.path, src)
         tb = None
         if tstate == "tdf":
-            Tdf.new(target)
-            tb = open(target, "rb").read()
+            tb = rc.encode_container(14, [], 1, (10 ** 9,) * 3, (10 ** 9,) * 3, "Generated by basicTDF")
+            open(target, "wb").write(tb)
         elif tstate == "non-tdf":
             tb = bytes(rng.getrandbits(8) for _ in range(rng.randint(1, 5000)))
             open(target, "wb").write(tb)
@@ -504,6 +523,9 @@ def shard_create_copy(desc, rec):
         else:
             if err is not None:
                 V(f"{which}:absent-target-refused", f"{type(err).__name__}: {err}", case)
+            elif not os.path.isfile(target):
+                V(f"{which}:file-not-created-at-the-given-path",
+                  f"{os.path.basename(target)!r} does not exist after the call; directory holds {sorted(p_.name for p_ in sub.iterdir())}", case)
             else:
                 data = open(target, "rb").read()
                 if which == "new":
@@ -550,11 +572,22 @@ def shard_create_copy(desc, rec):
                         if sha(b) != bb:
                             V("copy:not-independent", f"mutating the {side} changed the other file", case)
                         rec.count("c17:independence-checked")
-        for p in (src, target):
+        # nothing else in the directory may have been created, removed or changed
+        rec.count("oracle:C17.directory-otherwise-untouched")
+        now = {p_.name: (p_.read_bytes() if p_.is_file() else None) for p_ in sub.iterdir()}
+        expect_names = set(siblings) | ({os.path.basename(target)} if (tstate != "absent" or err is None) else set())
+        if set(now) - {os.path.basename(target)} != set(siblings):
+            V(f"{which}:creates-or-removes-other-files", f"directory holds {sorted(now)}, expected {sorted(expect_names)}", case)
+        for sname, content in siblings.items():
+            if sname in now and now[sname] != content:
+                V(f"{which}:clobbers-a-sibling-file", f"{sname} changed ({len(content)} -> {len(now[sname] or b'')} bytes) "
+                  f"when the target was {os.path.basename(target)!r}", case)
+        for p in [src] + [str(x) for x in sub.iterdir()]:
             if os.path.isdir(p):
                 os.rmdir(p)
             elif os.path.exists(p):
                 os.unlink(p)
+        sub.rmdir()
     # opening bad paths
     for i in range(desc.get("n_open", 40)):
         what = ["absent", "empty", "garbage", "short-signature", "signature-prefix-only", "almost-signature"][i % 6]
